@@ -98,6 +98,14 @@ def _iso_work(args):
             k = next((j for j, (a, b) in enumerate(zip(ls, lf.get(i, []))) if a != b), min(len(ls), len(lf.get(i, []))))
             res["viol"].append(("not-isolated", "strategy %d: order #%d alone %s | with the others %s" % (
                 i, k, ls[k] if k < len(ls) else None, lf.get(i, [])[k] if k < len(lf.get(i, [])) else None)))
+        else:
+            # the callbacks the strategy received (check / new market / book / orders / closed, per market and publish time) are its own
+            # affair too: whether process_orders is called must not depend on what the other strategies hold in the market
+            ca, cb = received(solo).get("s0", []), received(full).get("s%d" % i, [])
+            if ca != cb:
+                k = next((j for j, (a, b) in enumerate(zip(ca, cb)) if a != b), min(len(ca), len(cb)))
+                res["viol"].append(("callbacks-not-isolated", "strategy %d: callback #%d alone %s | with the others %s (%d vs %d callbacks)" % (
+                    i, k, ca[k] if k < len(ca) else None, cb[k] if k < len(cb) else None, len(ca), len(cb))))
     # reversed registration order
     rev = list(range(n))[::-1]
     r = simworld.Run(sub_scenario(sc, rev)).run()
